@@ -1,7 +1,7 @@
 """C01 - query results equal exactly the stored points that satisfy the query (DESIGN 4, C01)."""
 
 from .. import observers, qast, refmodel, world as W
-from .base import E1Check, viol, closure_configs, CFG4
+from .base import E1Check, viol, closure_configs, wide_configs, CFG4
 
 
 def std_ops(alpha, cfg, tier, with_reads=True):
@@ -71,7 +71,9 @@ class C01(E1Check):
             for c in cfgs:  # quick: file-backed configurations one level shallower
                 if c["storage"] == "csv":
                     c["D"] = 3
-        return cfgs + extra
+        # single operations on a database of six points (beyond the BFS bound N), in-order and shuffled storage
+        wide = wide_configs(("mem", "csv"), D=1 if self.tier == "quick" else 2)
+        return cfgs + wide + extra
 
     def budget(self):
         return 600 if self.tier == "quick" else 2400
